@@ -87,11 +87,23 @@ def showSchema (sch : List Tuple.FieldDef) : String :=
   ("schema " ++ " ".intercalate (sch.map fun fd => s!"{hexOrDash fd.name.toUTF8.toList}:{Tuple.showType fd.ty}:{fd.len}")).trimAscii.toString
 
 def tableLines (db : DB) (tables : List Bytes) : DB × List String :=
-  tables.foldl (fun (acc : DB × List String) t =>
+  let r := tables.foldl (fun (acc : DB × List String) t =>
     match fetchTable t acc.1.store with
     | .ok (rows, _) s => ({ acc.1 with store := s }, acc.2 ++ [(s!"table {hexOrDash t} " ++ showRows rows).trimAscii.toString])
     | .err e s => ({ acc.1 with store := s }, acc.2 ++ [s!"table {hexOrDash t} err {showSErr e}"])
     | _ => (acc.1, acc.2 ++ [s!"table {hexOrDash t} panic"])) (db, [])
+  (r.1, r.2 ++ [s!"counter {r.1.store.hdr.lastKey}"])
+
+/-- the row-id counter of a recovered database is behind a row id in use (the next INSERT would
+reuse an id): the largest id found, when the `counter` line is smaller -/
+def counterBehind (lines : List String) : Option (Nat × Nat) :=
+  let counter : Option Nat := lines.findSome? fun l => match words l with | ["counter", n] => n.toNat? | _ => none
+  let ids : List Nat := lines.flatMap fun l => match words l with
+    | "table" :: _ :: "rows" :: rest => rest.filterMap fun w => if w.endsWith ":" then (w.dropEnd 1).toString.toNat? else none
+    | _ => []
+  match counter with
+  | some c => let m := ids.foldl max 0; if c < m then some (c, m) else none
+  | none => none
 
 /-- the database a crash before log event `k` of the last statement leaves behind -/
 def crashImage (st : St) (k : Nat) (cut : String) : DB :=
@@ -411,6 +423,9 @@ def judgeImage (j : J) (op : String) (outs : List String) : J × List String :=
     let cands := rowPrefixStates j.prevSdb stmt
     let (first, probes) := splitProbes (outs.drop 1)
     let tabs := first.filterMap tableOf
+    match counterBehind first with
+    | some (c, m) => (j, [vio j "db:image-row-id-counter-behind" s!"counter={c} largest-id-in-use={m} op=[{short}]"])
+    | none =>
     -- a table of the recovered database that cannot be read at all
     if damaged first then
       (j, [vio j "db:image-table-unreadable" s!"op=[{short}] got=[{((" | ".intercalate (first.filter fun l => !(l.splitOn " rows").length == 2)).take 300).toString}]"]) else
@@ -498,6 +513,10 @@ def judgeLine (j : J) (op : String) (outs : List String) : J × List String :=
     let rec0 := outs.head?.getD ""
     let short := (op.take 100).toString
     if rec0 != "recover ok" then (j, [vio j s!"db:fimage-recovery-failed:{cls}" s!"got=[{rec0}] op=[{short}]"]) else
+    -- the recovered database never hands out a row id that is in use
+    match counterBehind ((outs.drop 1).takeWhile fun l => !l.startsWith "probe ") with
+    | some (c, m) => (j, [vio j s!"db:fimage-row-id-counter-behind:{cls}" s!"counter={c} largest-id-in-use={m} op=[{short}]"])
+    | none =>
     let tabs := ((outs.drop 1).takeWhile fun l => !l.startsWith "probe ").filterMap fun l => match words l with
       | "table" :: h :: _ => some ((bytesOfHex h).getD [], l)
       | _ => none
